@@ -45,13 +45,26 @@ Malformed == <<
   <<48, 120, 97, 98, 0>>, <<48, 120, 239, 188, 145, 239, 188, 146>>       \* NUL, full-width digits
 >>
 MalformedAt(j) == CItem("malformed", HexCmd("decode", IF j % 2 = 0 THEN "file" ELSE "stdin", Malformed[j]))
+\* large malformed input: the fault lies far behind the beginning (nothing may be written before it is found)
+BigBadSizes == <<2047, 2048, 2049, 3000, 5000, 70000>>
+NBigBad == Len(BigBadSizes) * 3
+BigBadAt(j) ==
+  LET size == BigBadSizes[1 + ((j - 1) % Len(BigBadSizes))]
+      m    == (j - 1) \div Len(BigBadSizes)
+      text == <<48, 120>> \o HexLower([i \in 1..size |-> (i * 5 + 1) % 256])
+      bad  == IF m = 0 THEN text \o <<55>>                                        \* a stray trailing digit
+              ELSE IF m = 1 THEN [text EXCEPT ![Len(text)] = 103]                 \* the last digit is 'g'
+              ELSE [text EXCEPT ![Len(text) - 100] = 122]                         \* a 'z' near the end
+  IN  CItem("big_malformed", HexCmd("decode", IF j % 2 = 0 THEN "file" ELSE "stdin", bad))
 O1 == 2 * NEnc
 O2 == O1 + NLayouts
-Count == O2 + Len(Malformed)
+O3 == O2 + Len(Malformed)
+Count == O3 + NBigBad
 ItemAt(g) ==
   IF g <= O1 THEN (IF g % 2 = 1 THEN EncAt((g + 1) \div 2) ELSE DecAt(g \div 2, g))
   ELSE IF g <= O2 THEN LayoutAt(g - O1)
-  ELSE MalformedAt(g - O2)
+  ELSE IF g <= O3 THEN MalformedAt(g - O2)
+  ELSE BigBadAt(g - O3)
 VARIABLE n
 INSTANCE GenBase
 =============================================================================
